@@ -133,6 +133,7 @@ func RunOnce(t *testing.T, env *Env, p *Prop, seed, run uint64, vals []uint32, r
 	}
 	res = &Result{Prop: p.ID, Seed: seed, Run: run}
 	sim.WallExpired.Store(false)
+	sim.RunWallExtra.Store(0)
 	curRun.Store(fmt.Sprintf("%s seed=%d run=%d #%d", p.ID, seed, run, runCounter.Add(1)))
 	var ctx *Ctx
 	func() {
@@ -796,7 +797,7 @@ func startWatchdog() {
 			if cur != runName {
 				runName, runSince = cur, time.Now()
 				sim.WallExpired.Store(false)
-			} else if cur != "" && time.Since(runSince) > runLimit {
+			} else if cur != "" && time.Since(runSince) > runLimit+time.Duration(sim.RunWallExtra.Load())*time.Second {
 				sim.WallExpired.Store(true)
 			}
 			if cur != last || prog != lastProg {
